@@ -71,6 +71,7 @@ static SImg gen_gradient(bool sane) {
     if (!sane && coin(20)) g.geom[4] = g.geom[5] = 0;
   } else {
     g.geom = {gcoord(30), gcoord(6), R(0, 360) * 65536 + (coin(50) ? 0 : R(0, 65535))};
+    if (coin(35)) g.geom[2] = R(-800, 800) * 65536 + (coin(50) ? 0 : R(0, 65535));  // negative angles and more than one turn (seeded C13t)
     if (coin(20)) g.geom = {((int64_t)R(0, 20) << 16) + 32768, ((int64_t)R(0, 2) << 16) + 32768, g.geom[2]};  // centre on a pixel centre
   }
   int tk = pickw({5, 2, 2, 1, sane ? 0 : 1, 1});
